@@ -197,6 +197,18 @@ class FieldData:
          renaming_connected = True
     if renaming_connected:
       # check the new identifier before the line leaves the registry
+      if value is not None and not isinstance(value, str) and \
+          not gfapy.is_placeholder(value):
+        raise gfapy.TypeError(
+          "The identifier of a line is a string ({} found)".format(
+            value.__class__.__name__))
+      if (value is None or gfapy.is_placeholder(value)) and \
+          self.record_type in ["E", "G", "O", "U"] and \
+          (self._refs.get("paths") or self._refs.get("sets")):
+        raise gfapy.RuntimeError(
+          "The identifier of the line cannot be removed: "+
+          "groups refer to the line by it\n"+
+          "Line: {}".format(self))
       if value is not None and self.vlevel >= 1:
         gfapy.Field._validate_gfa_field(value,
             self._field_datatype(fieldname), fieldname)
